@@ -11,7 +11,7 @@ git apply $out/$x.diff || { echo "$id-$x: patch does not apply"; exit 1; }
 tests=$(timeout 900 /venv/bin/python -m pytest -q -p no:cacheprovider 2>&1 | tail -1)
 PYTHONPATH=$wt/src timeout 300 /venv/bin/python $out/demo_$x.py >$out/mut_$x.log 2>&1; rc_mut=$?
 line="$id-$x: tests=[$tests] demo clean=$rc_clean mutant=$rc_mut ||"
-export VERIF_REPO_SRC=$wt/src VERIF_EVIDENCE_DIR=/tmp/w/seed-ev VERIF_REPLAY_DIR=/tmp/w/seed-replays/$id-$x VERIF_SKIP_DETERMINISM=1
+export VERIF_REPO_SRC=$wt/src VERIF_EVIDENCE_DIR=/tmp/w/seed-ev VERIF_REPLAY_DIR=/tmp/w/seed-replays/$id-$x VERIF_SKIP_DETERMINISM=${VERIF_SKIP_DETERMINISM-1}
 for c in $checks; do
   o=$(cd /verif && timeout 1500 /venv/bin/python dst.py check $c --tier quick 2>&1); rc=$?
   cl=$(echo "$o" | grep -m1 'clause=' | sed 's/.*clause=\([^ ]*\).*/\1/' | cut -c1-70)
